@@ -63,7 +63,7 @@ func OpenRO(dbfile string) (*sql.DB, error) {
 	if err != nil {
 		return nil, err
 	}
-	db.SetMaxOpenConns(1)
+	db.SetMaxOpenConns(4)
 	return db, nil
 }
 
